@@ -6,7 +6,7 @@ import os
 from . import common
 from .common import Check, Graph, run_tlc, impl_call, SPECS
 
-CONSTS = "W = %(W)d MaxEp = %(MaxEp)d MaxInj = %(MaxInj)d Reorder = %(Reorder)d BuggyInverse = FALSE Depth = %(Depth)d"
+CONSTS = "W = %(W)d MinEp = %(MinEp)d MaxEp = %(MaxEp)d MaxInj = %(MaxInj)d Reorder = %(Reorder)d BuggyInverse = FALSE Depth = %(Depth)d"
 INVS = ["AlgoIsIdeal", "Stable", "OrderPreserving", "AvoidsInjected", "Inverse", "InverseAll",
         "InjectedKnown", "BaseIsHighest"]
 
@@ -27,12 +27,46 @@ def _tracker(W):
 
 def _apply(tr, act):
     """Perform one abstract action on the real tracker the way prepare_message does."""
+    if isinstance(tr, CircuitCarrier):
+        return tr.apply(act)
     if act["n"] == "Send":
         st, w = impl_call(tr.get_effective_id, act["k"])
         if st == "ok":
             impl_call(tr.track_seen, w)
         return st, w
     return impl_call(tr.gen_injectable_id)
+
+
+class CircuitCarrier:
+    """The same two actions through the tracker's call site: ProxiedCircuit.prepare_message on a forwarded
+    endpoint packet (Send) and on a message of the proxy's own (Inject), direction OUT.  Queries go to the
+    circuit's tracker.  This removes the assumption about how prepare_message uses the tracker."""
+
+    def __init__(self, W):
+        from hippolyzer.lib.proxy.circuit import ProxiedCircuit, InjectionTracker
+        self.c = ProxiedCircuit(("127.0.0.1", 1), ("127.0.0.1", 2), None)
+        self.c.out_injections = InjectionTracker(0, maxlen=W)
+        self.tr = self.c.out_injections
+
+    def __getattr__(self, name):          # get_effective_id / get_original_id / was_injected / track_seen
+        return getattr(self.tr, name)
+
+    def apply(self, act):
+        from hippolyzer.lib.base.message.message import Block, Message
+        from hippolyzer.lib.base.network.transport import Direction
+        m = Message("CompletePingCheck", Block("PingID", PingID=1), direction=Direction.OUT,
+                    packet_id=act["k"] if act["n"] == "Send" else None)
+        st, r = impl_call(self.c.prepare_message, m)
+        if st != "ok":
+            return st, r
+        return "ok", m.packet_id
+
+
+_CARRIER = "tracker"
+
+
+def _new(W):
+    return CircuitCarrier(W) if _CARRIER == "circuit" else _tracker(W)
 
 
 def _compare(tr, obs):
@@ -73,7 +107,7 @@ def _replay_chunk(edge_ids):
         else:
             ei = item
         e = g.edges[ei]
-        tr = _tracker(W)
+        tr = _new(W)
         hist = []
         for pe in g.path_to(pre[0]["_s"] if pre else e["_s"]) + pre:
             _apply(tr, pe["act"])
@@ -99,8 +133,9 @@ def _replay_chunk(edge_ids):
     return queries, out
 
 
-def _b1(chk: Check, consts, label):
-    global _G, _W
+def _b1(chk: Check, consts, label, carriers=("tracker", "circuit")):
+    global _G, _W, _CARRIER
+    consts = dict({"MinEp": 1}, **consts)
     cfg = os.path.join(chk.scratch, "mc-%s.cfg" % label)
     _cfg(cfg, "SpecT", consts, INVS, ["InjectFresh"])
     res = run_tlc(os.path.join(SPECS, "InjectionTracker_MC.tla"), cfg, workers="auto", scratch=chk.scratch)
@@ -113,41 +148,48 @@ def _b1(chk: Check, consts, label):
     g = Graph(res.printed())
     _G, _W = g, consts["W"]
     ids = g.reachable_edges() + g.merge_pairs(40000 if chk.tier == 'quick' else 240000)
-    results = common.parallel_map(_replay_chunk, common.chunked(ids, common.NCPU * 4))
-    q = sum(r[0] for r in results)
-    chk.count(q)
-    chk.cov["traces_validated_against_impl"] += len(ids)
-    chk.cov.setdefault("b1_edges_replayed", 0)
-    chk.cov["b1_edges_replayed"] += len(ids)
+    results = []
+    for carrier in carriers:
+        _CARRIER = carrier
+        rs = common.parallel_map(_replay_chunk, common.chunked(ids, common.NCPU * 4))
+        for _, bads in rs:
+            for b in bads:
+                b["carrier"] = carrier
+        results += rs
+        chk.count(sum(r[0] for r in rs))
+        chk.cov["traces_validated_against_impl"] += len(ids)
+        chk.cov.setdefault("b1_edges_replayed", 0)
+        chk.cov["b1_edges_replayed"] += len(ids)
+    _CARRIER = "tracker"
     for e in g.edges:
         if e["src"] != e["dst"]:
             chk.nontrivial(("edge", label, e["_s"], common.skey(e["act"])))
     for _, bads in results:
         for b in bads:
             m = b["mismatches"][0]
-            chk.violation("B1 %s: %s differs from specification" % (label, m[0]),
-                          {"kind": "b1", "op": m[0], "history": b["history"]}, b)
+            chk.violation("B1 %s (%s): %s differs from specification" % (label, b["carrier"], m[0]),
+                          {"kind": "b1", "op": m[0], "carrier": b["carrier"], "history": b["history"]}, b)
     e = g.edges[min(len(g.edges) - 1, 1234)]
     chk.sample({"binding": "B1 edge replay", "path": [p["act"] for p in g.path_to(e["_s"])] + [e["act"]],
                 "expected_observation": e["obs"]})
 
 
-def _random_walks(chk: Check, n_walks, length, W, qn):
+def _random_walks(chk: Check, n_walks, length, W, qn, first=1):
     """Drive the real tracker randomly; respect the environment assumption using only
     values the implementation itself returned (no oracle on this side)."""
     traces = []
     for t in range(n_walks):
         rng = chk.rng
-        tr = _tracker(W)
+        tr = CircuitCarrier(W) if t % 2 else _tracker(W)
         injected = []
         seen = {}  # endpoint id -> observed wire id
-        frontier = 0
+        frontier = first - 1
         evs = []
         p_inj = rng.choice([0.15, 0.3, 0.5, 0.7])
         for _ in range(length):
             horizon = injected[-W - 1] if len(injected) > W else 0
             if rng.random() < p_inj:
-                st, r = impl_call(tr.gen_injectable_id)
+                st, r = _apply(tr, {"n": "Inject"})
                 if st != "ok":
                     evs.append({"ev": "Inject", "id": -1})
                     break
@@ -159,22 +201,23 @@ def _random_walks(chk: Check, n_walks, length, W, qn):
                     k = frontier + 1 + (rng.randrange(0, 3) if c < 0.15 else 0)
                 else:
                     # older ID: a resend, or a gap; only if provably above the horizon
-                    k = max(1, frontier - rng.randrange(0, 6))
+                    k = max(first, frontier - rng.randrange(0, 6))
                     below = [kk for kk in seen if kk <= k]
                     if not below or seen[max(below)] <= horizon or (k not in seen and k - 1 not in seen):
                         k = frontier + 1
-                st, w = impl_call(tr.get_effective_id, k)
+                if k == 0 and horizon > 0:
+                    k = 1     # ID 0 is older than every injection: outside the claim once one has aged out
+                st, w = _apply(tr, {"n": "Send", "k": k})
                 if st != "ok":
                     evs.append({"ev": "Send", "k": k, "w": -1})
                     break
-                tr.track_seen(w)
                 seen.setdefault(k, w)
                 frontier = max(frontier, k)
                 evs.append({"ev": "Send", "k": k, "w": w})
             # pure queries around the frontier and at random places
-            hi = max([frontier] + injected) + 2
-            ks = {frontier + 1, frontier + 2} | {rng.randrange(1, hi + 1) for _ in range(qn)}
-            ws = {hi, hi - 1} | {rng.randrange(1, hi + 1) for _ in range(qn)}
+            hi = max([frontier, first] + injected) + 2
+            ks = {frontier + 1, frontier + 2} | {rng.randrange(first, hi + 1) for _ in range(qn)}
+            ws = {hi, hi - 1} | {rng.randrange(first, hi + 1) for _ in range(qn)}
 
             def q(fn, x):
                 s, r = impl_call(fn, x)
@@ -187,10 +230,10 @@ def _random_walks(chk: Check, n_walks, length, W, qn):
     return traces
 
 
-def _b2(chk: Check, n_walks, length, W, qn, label):
-    traces = _random_walks(chk, n_walks, length, W, qn)
-    cfg = ("SPECIFICATION TraceSpec\nCONSTANTS W = %d MaxEp = 100000 MaxInj = 100000 Reorder = 100000 BuggyInverse = FALSE\n"
-           "POSTCONDITION TraceAccepted\nCHECK_DEADLOCK FALSE\n" % W)
+def _b2(chk: Check, n_walks, length, W, qn, label, first=1):
+    traces = _random_walks(chk, n_walks, length, W, qn, first)
+    cfg = ("SPECIFICATION TraceSpec\nCONSTANTS W = %d MinEp = %d MaxEp = 100000 MaxInj = 100000 Reorder = 100000 BuggyInverse = FALSE\n"
+           "POSTCONDITION TraceAccepted\nCHECK_DEADLOCK FALSE\n" % (W, first))
     common.check_traces(chk, "InjectionTracker_Trace", cfg, traces, label)
     for i, t in enumerate(traces):
         if sum(1 for e in t if e["ev"] == "Inject") >= 2:
@@ -205,15 +248,20 @@ def run(chk: Check):
                        "non-trivial = walks with >= 2 injections.")
     chk.assumptions += ["endpoint IDs stay within a window of the frontier and above aged-out injections (CanSend)",
                         "no packet-ID wrap-around (documented in the code)",
-                        "Send is performed as prepare_message does: get_effective_id then track_seen"]
+                        "carrier `tracker`: Send is performed as prepare_message does (get_effective_id then track_seen); carrier `circuit`: through ProxiedCircuit.prepare_message itself",
+                        "endpoint IDs start at 1, or at 0 (configs from0-*: hippolyzer's own client endpoint numbers from 0)"]
     if chk.tier == "quick":
         _b1(chk, dict(W=2, MaxEp=6, MaxInj=5, Reorder=1, Depth=9), "W2d9")
+        _b1(chk, dict(W=2, MinEp=0, MaxEp=4, MaxInj=4, Reorder=1, Depth=7), "from0-W2d7")
         _b2(chk, 64, 60, 3, 4, "W3")
+        _b2(chk, 32, 60, 3, 4, "from0-W3", first=0)
         _b2(chk, 32, 120, 10000, 4, "W10000")
     else:
         _b1(chk, dict(W=2, MaxEp=7, MaxInj=6, Reorder=2, Depth=11), "W2d11")
         _b1(chk, dict(W=3, MaxEp=6, MaxInj=6, Reorder=1, Depth=11), "W3d11")
         _b1(chk, dict(W=1, MaxEp=6, MaxInj=6, Reorder=1, Depth=10), "W1d10")
+        _b1(chk, dict(W=2, MinEp=0, MaxEp=6, MaxInj=6, Reorder=1, Depth=10), "from0-W2d10")
+        _b2(chk, 240, 80, 3, 5, "from0-W3", first=0)
         _b2(chk, 480, 80, 3, 5, "W3")
         _b2(chk, 240, 80, 5, 5, "W5")
         _b2(chk, 160, 160, 10000, 4, "W10000")
